@@ -23,6 +23,7 @@ from fractions import Fraction as F
 import numpy as np
 
 from mc import interp, proggen
+from mc.checks.c08 import build_recipe as build_recipe_c08
 from mc.harness import add_violation, bump, new_part, quiet, setup_repo_import
 
 PROPERTY = "C04"
@@ -464,10 +465,166 @@ def proggen_str(r):
         return k
     if k in ("c", "n", "b"):
         return repr(r[1])
+    if k == "cy":
+        return repr(r[1]) + "~y"
     return k + "(" + ", ".join(proggen_str(q) for q in r[1:]) + ")"
 
 
 # ------------------------------------------------------------------ scope E: shipped algorithms
+
+
+# ------------------------------------------------------------------ complex-typed symbols (scope Z)
+
+
+class CInterp(interp.Interp):
+    """mc.interp plus the textbook semantics of the kinds that take complex operands (unexpanded graphs): component-wise
+    add/subtract/negative/conjugate, the four-product multiplication, modulus by hypot, real scaling; used on a grid of
+    moderate finite values only (no overflow, underflow, NaN), so that the comparison set needs no event flags."""
+
+    def _eval(self, e, env, flags):
+        k = e.kind
+        if k in ("symbol", "constant", "apply", "complex", "real", "imag", "conjugate", "select", "list", "item"):
+            return super()._eval(e, env, flags)
+        ops = [env[id(o)] for o in e.operands]
+        if not any(isinstance(o, interp.Cx) for o in ops):
+            return super()._eval(e, env, flags)
+        C = interp.Cx
+
+        def cx(o):
+            return o if isinstance(o, C) else C(o, np.zeros_like(o))
+
+        if k == "absolute":
+            return np.hypot(ops[0].re, ops[0].im)
+        if k == "negative":
+            return C(-ops[0].re, -ops[0].im)
+        if k == "positive":
+            return ops[0]
+        if k in ("add", "subtract"):
+            a, b = cx(ops[0]), cx(ops[1])
+            f = np.add if k == "add" else np.subtract
+            return C(f(a.re, b.re), f(a.im, b.im))
+        if k == "multiply":
+            a, b = ops
+            if not isinstance(a, C):
+                return C(a * b.re, a * b.im)
+            if not isinstance(b, C):
+                return C(a.re * b, a.im * b)
+            return C(a.re * b.re - a.im * b.im, a.re * b.im + a.im * b.re)
+        if k == "square":
+            a = ops[0]
+            return C(a.re * a.re - a.im * a.im, a.re * a.im + a.im * a.re)
+        if k == "divide" and not isinstance(ops[1], C):
+            return C(ops[0].re / ops[1], ops[0].im / ops[1])
+        if k in ("eq", "ne"):
+            a, b = cx(ops[0]), cx(ops[1])
+            r = (a.re == b.re) & (a.im == b.im)
+            return r if k == "eq" else ~r
+        raise interp.Unsupported(f"{k} with complex operand")
+
+
+def complex_programs(level):
+    """programs over a complex symbol z and a real symbol x (leaf names: z -> ("y",), x -> ("x",))"""
+    x, z = ("x",), ("y",)
+    one, zero = ("c", 1), ("c", 0)
+    zc1, zc0 = ("cy", 1), ("cy", 0)
+    reals = [("absolute", z), ("real", z), ("imag", z), ("absolute", ("multiply", z, z)), ("absolute", ("conjugate", z)), ("sqrt", ("absolute", z)), ("add", ("absolute", z), x),
+             ("multiply", ("absolute", z), ("absolute", z)), ("square", ("absolute", z)), ("negative", ("absolute", z)), ("absolute", ("negative", z)), ("add", ("absolute", z), one),
+             ("absolute", ("add", z, zc1)), ("multiply", ("real", z), ("real", z)), ("add", ("square", ("real", z)), ("square", ("imag", z))), ("absolute", ("real", z)), ("negative", ("square", ("imag", z)))]
+    others = [x, ("absolute", x), zero, one, ("c", -1), ("c", 0.5), ("negative", ("absolute", x))]
+    out = []
+    for k in proggen.COMPARE:
+        for a in reals:
+            for b in others + reals[:6]:
+                out.append((k, a, b))
+                if level >= 1 or b in others[:3]:
+                    out.append((k, b, a))
+    cplx = [z, ("negative", z), ("conjugate", z), ("multiply", z, zc1), ("add", z, zc0), ("add", zc0, z), ("subtract", z, zc0), ("negative", ("negative", z)), ("conjugate", ("conjugate", z)),
+            ("multiply", zc1, z), ("complex", ("real", z), ("imag", z)), ("multiply", z, z), ("add", z, z), ("divide", z, one), ("complex", x, ("absolute", z)), ("multiply", ("absolute", z), z)]
+    conds = [("lt", ("absolute", z), one), ("ge", ("absolute", z), zero), ("lt", ("real", z), x), ("eq", ("imag", z), zero), ("le", ("absolute", z), ("absolute", x)), ("gt", ("absolute", ("multiply", z, z)), ("absolute", z))]
+    for c in conds:
+        for a in cplx:
+            for b in cplx[:4]:
+                out.append(("select", c, a, b))
+    for a in cplx:
+        out += [("real", a), ("imag", a), ("absolute", a), ("lt", ("absolute", a), one), ("eq", ("real", a), ("real", z))]
+    seen, res = set(), []
+    for r in out:
+        if r not in seen:
+            seen.add(r)
+            res.append(r)
+    return res
+
+
+CGRID = [-2.0, -1.0, -0.5, -0.0, 0.0, 1.0 / 3.0, 0.5, 1.0, 2.0]
+
+
+def w_complex(task):
+    """scope Z: the rewriter on graphs with a complex-typed symbol: terminates, does not raise, same value on the grid."""
+    fa = setup_repo_import()
+    signal.signal(signal.SIGALRM, _alarm)
+    part = new_part()
+    ctname, ftname, ft = task["ctype"], task["ftype"], {"float32": np.float32, "float": np.float64}[task["ftype"]]
+    g = np.array(CGRID, dtype=ft)
+    RE, IM, X = (a.ravel() for a in np.meshgrid(g, g, g, indexing="ij"))
+    Z = (RE + 1j * IM).astype(np.complex64 if ft is np.float32 else np.complex128)
+    Z.real, Z.imag = RE, IM  # keeps the signs of zeros
+    progs = complex_programs(task["level"])[task["lo"]::task["stride"]]
+    for recipe in progs:
+        part["evaluations"] += 1
+        case = {"recipe": repr(recipe), "cfg": ctname, "scope": "Z", "ftype": ftname}
+        with quiet():
+            ctx = fa.Context()
+            syms = {"x": ctx.symbol("x", ftname), "y": ctx.symbol("z", ctname)}
+            try:
+                e = build_recipe_c08(fa, ctx, recipe, syms)
+            except Exception as ex:
+                bump(part, "status_not-constructible")
+                continue
+            signal.setitimer(signal.ITIMER_REAL, 5.0)
+            try:
+                r = e.rewrite(fa.rewrite)
+            except Timeout:
+                add_violation(part, f"rewrite-does-not-terminate:{ctname}", f"rewriting {proggen_str(recipe)} [z:{ctname}, x:{ftname}] did not reach a fix-point within 5 s", case)
+                continue
+            except Exception as ex:
+                tb = traceback.extract_tb(ex.__traceback__)
+                where = [f.name for f in tb if f.filename.endswith("rewrite.py") or f.filename.endswith("expr.py")]
+                add_violation(part, f"rewrite-raises:{type(ex).__name__}:{where[-1] if where else '?'}:complex-symbol", f"rewriting {proggen_str(recipe)} [z:{ctname}, x:{ftname}] raised {type(ex).__name__}: {str(ex)[:200]}", case)
+                continue
+            finally:
+                signal.setitimer(signal.ITIMER_REAL, 0)
+        if r is e:
+            bump(part, "status_unchanged")
+            continue
+        part["nontrivial"] += 1
+        args = [syms["x"], syms["y"]]
+        try:
+            with np.errstate(all="ignore"):
+                v0 = CInterp(fa, e, args).run(X, Z)
+        except Exception as ex:
+            bump(part, "status_not-evaluable")
+            continue
+        try:
+            with np.errstate(all="ignore"):
+                v1 = CInterp(fa, r, args).run(X, Z)
+        except Exception as ex:
+            add_violation(part, f"rewritten-not-evaluable:{ctname}", f"{proggen_str(recipe)}: {type(ex).__name__}: {ex}", case)
+            continue
+        a, b = np.broadcast_to(np.asarray(v0), X.shape), np.broadcast_to(np.asarray(v1), X.shape)
+        with np.errstate(all="ignore"):
+            if (a.dtype == bool) != (b.dtype == bool):
+                same = np.zeros(X.shape, bool)
+            else:
+                same = (a == b) | ((a != a) & (b != b))
+            finite = np.isfinite(a) if a.dtype != bool else np.ones(X.shape, bool)
+        bad = finite & ~same
+        if bad.any():
+            i = int(np.flatnonzero(bad)[0])
+            add_violation(part, f"{ctname}:mismatch:{recipe[0]}({','.join(q[0] for q in recipe[1:] if isinstance(q, tuple))}):complex-symbol", f"{proggen_str(recipe)} at z={Z[i]!r} x={X[i]!r}: original evaluates to {a[i]!r}, rewritten to {b[i]!r}", case)
+    if progs:
+        part["samples"].append({"scope": "Z", "cfg": ctname, "program": proggen_str(progs[len(progs) // 2])})
+    return part
+
 
 
 def w_shipped(task):
@@ -555,6 +712,9 @@ def run(run):
         for lo in range(stride):
             tasks.append(dict(scope=scope, size=size, level=level, cfg=cfg, lo=lo, stride=stride, exact_full=thorough))
     run.map(MOD, "w_scope", tasks)
+    nz = len(complex_programs(1 if thorough else 0))
+    run.counters["programs_Z_complex_symbol"] = nz
+    run.map(MOD, "w_complex", [dict(ctype=ct, ftype=ftn, level=1 if thorough else 0, lo=lo, stride=8) for ct, ftn in (("complex64", "float32"), ("complex", "float")) for lo in range(8)])
     reqs = [r for r in gen.requests(fa) if r[0] in ("numpy", "python", "cpp", "stablehlo", "xla_client")]
     if not thorough:
         reqs = [r for r in reqs if r[0] in ("numpy", "stablehlo")]
@@ -575,6 +735,11 @@ def replay(case):
     fa = setup_repo_import()
     signal.signal(signal.SIGALRM, _alarm)
     part = new_part()
+    if case.get("scope") == "Z":
+        progs = complex_programs(1)
+        rc = eval(case["recipe"])
+        part = w_complex(dict(ctype=case["cfg"], ftype=case["ftype"], level=1, lo=progs.index(rc), stride=len(progs)))
+        return [(v["sig"], v["msg"][:600]) for v in part["violations"]]
     if "recipe" in case:
         recipe = eval(case["recipe"])
         cfg = case["cfg"]
